@@ -362,7 +362,7 @@ def check_engine(ctx: Ctx, inp) -> None:
 
 SUBS = [
     Sub("filters_enum", fn=check_filterset, enumerate=enum_filtersets, quick=(16, 0), thorough=(16, 0), exhaustive=True, timeout_quick=600, timeout_thorough=3400),
-    Sub("engine", fn=check_engine, strategy=engine_case, quick=(8, 6), thorough=(16, 150), shrink_quick=False, timeout_quick=600, timeout_thorough=3400),
+    Sub("engine", collect=True, fn=check_engine, strategy=engine_case, quick=(8, 6), thorough=(16, 150), shrink_quick=False, timeout_quick=600, timeout_thorough=3400),
 ]
 FLOOR = {"filters_enum": 1000, "engine": 20}
 BOUNDS = {"filters_enum": "24 atoms; quick: all sets with <=1 include and <=1 exclude (both orders sampled), all 2+0 and 0+2; thorough adds all 2+1, 1+2 and a quarter of 2+2 sets; each applied step by step through schema.include/exclude with every intermediate schema re-checked, plus the FilterArguments.into() route where expressible"}
